@@ -115,6 +115,26 @@ class Guard:
         return f"{neg}({self.param} {self.op} {self.consts})"
 
 
+def _contradictory(gs) -> bool:
+    """two guards over one parameter that no value satisfies: a positive membership/equality
+    whose every allowed value is excluded by a negative one (or by another positive one)"""
+    by: dict[str, list] = {}
+    for g in gs:
+        by.setdefault(g.param, []).append(g)
+    for p, lst in by.items():
+        pos = [set(g.consts) if g.op == "in" else {g.consts[0]} for g in lst if g.op in ("in", "eq") and g.pol]
+        neg = [set(g.consts) if g.op == "in" else {g.consts[0]} for g in lst if g.op in ("in", "eq") and not g.pol]
+        if pos:
+            allowed = set.intersection(*pos)
+            for n_ in neg:
+                allowed = allowed - n_
+            if any(g.op == "isnone" and g.pol for g in lst):
+                allowed = {v for v in allowed if v is None}
+            if not allowed:
+                return True
+    return False
+
+
 @dataclass(frozen=True)
 class Effect:
     kind: str
@@ -486,6 +506,8 @@ class Effects:
             elif b[0] == "param":
                 gs.add(Guard(b[1], g.op, g.consts, g.pol))
             # unknown/expr: drop the guard, keep the effect (conservative)
+        if _contradictory(gs):
+            return None  # e.g. `mode in ("r", "r+")` established by the caller, effect only for other modes
         chain = (callee_q,) + e.chain
         if len(chain) > 14:
             chain = chain[:14]
